@@ -128,17 +128,22 @@ func genCond(c *hx.Ctx) {
 	}
 	for i := 0; i < c.N-nConf; i++ {
 		r := c.Rng.Fork()
-		switch i % 6 {
-		case 1: // a random program, rendered as two contracts and a script
+		single := func(label string, p *l3sx.CProgram) {
+			c.Emit("cond", "prog", label+strconv.Itoa(i), "forms="+strings.Join(p.FormList(), ","), p.SX(), esc(p.Src()))
+		}
+		switch i % 12 {
+		case 1, 7: // a random program, rendered as two contracts and a script
 			emitMulti("m"+strconv.Itoa(i), l3sx.GenCond(r), r)
-		case 3, 5: // own and inherited post-conditions both capture before values; two contracts
+		case 3, 9: // own and inherited post-conditions both capture before values; two contracts
 			emitMulti("b"+strconv.Itoa(i), l3sx.GenCondBefore(r), r)
-		case 4: // the same family as one program
-			p := l3sx.GenCondBefore(r)
-			c.Emit("cond", "prog", "s"+strconv.Itoa(i), "forms="+strings.Join(p.FormList(), ","), p.SX(), esc(p.Src()))
+		case 5: // the same family as one program
+			single("s", l3sx.GenCondBefore(r))
+		case 2, 8, 10: // conditions built from the forms the before-extractor rewrites (`? :`, unary, call, cast, force, index)
+			single("x", l3sx.GenCondSugar(r))
+		case 11:
+			emitMulti("y"+strconv.Itoa(i), l3sx.GenCondSugar(r), r)
 		default:
-			p := l3sx.GenCond(r)
-			c.Emit("cond", "prog", "g"+strconv.Itoa(i), "forms="+strings.Join(p.FormList(), ","), p.SX(), esc(p.Src()))
+			single("g", l3sx.GenCond(r))
 		}
 	}
 }
